@@ -43,6 +43,12 @@ def gen(rng):
                                  'meta': rng.choice([None, {'type': 't1'}])})
     ax = g.extension('ax', a, '1', v)
     ops = [multi.add_op({'a:1': a}, ['a:1'], v), multi.add_op({'ax:1': ax}, ['ax:1'], v)]
+    if rng.random() < 0.4:
+        # the extension takes the rowid of a lexicon that was looked at and removed before
+        us = {f'u{i}:1': g.lexicon(f'u{i}', '1', v, n_syn=2, n_ent=1) for i in range(3)}
+        last = 'u2:1'
+        ops = [multi.add_op({'a:1': a}, ['a:1'], v)] + [multi.add_op(us, [s_], v) for s_ in us] + [{'k': 'battery', 'expand': ''},
+               {'k': 'remove', 'spec': last, '_removed': [last]}, multi.add_op({'ax:1': ax}, ['ax:1'], v)]
     for s in ({'lexicon': 'a:1'}, {'lexicon': 'a:1 ax:1'}, {'lexicon': 'ax:1'}, {}):
         ops.append(dict({'k': 'battery'}, **s, expand=''))
     return {'ops': ops}
